@@ -133,7 +133,8 @@ def build_case(case, world, inst):
         _, cls, style, cond = case
         conds = (("cmp", "ge", A(X, "p" if cls == "Item" else "k"), L(1)),) if cond else ()
         q = ("Q", "an", "entity", X, conds, (("x", style, cls, "DM"),))
-        exp = [o for o in dm if isinstance(o, W.CLASSES[cls])]
+        exp = [o for o in dm if isinstance(o, W.CLASSES[cls])
+               and (not cond or getattr(o, "p" if cls == "Item" else "k") >= inst.v(1))]
         return q, None, exp, "list"
     if fam in ("kw", "pos", "mixed"):
         _, cls, pairs = case
